@@ -1,6 +1,7 @@
 package main
 
 import (
+	"verif/engine/core"
 	"verif/engine/peg"
 	"verif/engine/rtapi"
 )
@@ -14,7 +15,7 @@ var allUnary = []peg.Kind{peg.KOpt, peg.KStar, peg.KPlus, peg.KAnd, peg.KNot}
 func init() {
 	register(&Check{
 		ID: "C01", Level: "exploration", QuickSecs: 150, ThoroughSecs: 1500,
-		Rule:        "all grammars S <- v:(body){probe} with body over {'a','b',\"ab\",\"\",[ab],[^a],.} x {?,*,+,&,!} x seq/choice (arity<=3) up to N nodes (quick 5, thorough 6), a second family with i-flag/Unicode terminals, a two-rule family with every Entrypoint, and every single label+action decoration of bodies up to 4 nodes; x all inputs over the family's alphabet up to L; x 4 generation flag sets; each compared with the reference PEG interpreter (success, consumed prefix, exact value shape). Non-trivial = the reference backtracked over consumed input.",
+		Rule:        "all grammars S <- v:(body){probe} with body over {'a','b',\"ab\",\"\",[ab],[^a],.} x {?,*,+,&,!} x seq/choice (arity<=3) up to N nodes (quick 5, thorough 6), a second family with i-flag/Unicode terminals, a two-rule family with every Entrypoint, every single label+action decoration of bodies up to 4 nodes, and a family generated with -optimize-grammar (one leaf rule inlined at two places next to different neighbours, compared on success, prefix and flat value); x all inputs over the family's alphabet up to L; x 4 generation flag sets; each compared with the reference PEG interpreter (success, consumed prefix, exact value shape). Non-trivial = the reference backtracked over consumed input.",
 		Assumptions: []string{"runtime loaded through E1 (emitted grammar literal rebuilt in-process into the working tree's static code); bound to the compiler path by the conformance check", "code blocks are scripted probes"},
 		Run:         runC01,
 	})
@@ -88,6 +89,20 @@ func runC01(c *ShardCtx) {
 			runGrammar(c, wrap(body, &peg.Rule{Name: "A", Expr: ab}), fam3)
 		}
 	}
+	// family 5: -optimize-grammar (a generation flag like the others): multi-rule grammars whose
+	// leaf rule is inlined at two places next to different neighbours; success, consumed prefix
+	// and flat value (the optimizer may regroup action-less structure) against the reference
+	inputs5 := peg.Inputs([]string{"a", "b", "c"}, 3)
+	for _, ga := range twoSiteFamily() {
+		idx++
+		if !c.Mine(idx) {
+			continue
+		}
+		if c.Expired("family 5") {
+			return
+		}
+		optGrammarVsReference(c, wrapFirst(ga.g), []core.Gen{{OptGrammar: true}, {OptGrammar: true, Optimize: true, BasicLatin: true}}, inputs5, "-optimize-grammar")
+	}
 	// family 4: every single label+action decoration
 	n4 := 4
 	if c.Thorough() {
@@ -107,4 +122,12 @@ func runC01(c *ShardCtx) {
 			runGrammar(c, wrap(dec), fam4)
 		}
 	}
+}
+
+// wrapFirst puts the first rule's expression under the standard top action so
+// that the consumed prefix is observable.
+func wrapFirst(g *peg.Grammar) *peg.Grammar {
+	h := g.Clone()
+	h.Rules[0].Expr = peg.Action(100, peg.Label("v", h.Rules[0].Expr), "v")
+	return h
 }
